@@ -481,6 +481,18 @@ impl TransformerContext {
         self.prev_element = Some(el.clone());
     }
 
+    /// Record the extent of an element (as clipped by its `clip-path`) on its registered
+    /// copy - the resolved element, which stays as it is otherwise.
+    pub fn set_element_content_bbox(&mut self, el: &SvgElement, bbox: Option<BoundingBox>) {
+        if let Some(id) = el.get_attr("id") {
+            let id = eval_attr(&id, self).unwrap_or(id);
+            if let Some(mut registered) = self.elem_map.get(&id).cloned() {
+                registered.content_bbox = bbox;
+                self.elem_map.insert(id, registered);
+            }
+        }
+    }
+
     pub fn update_element(&mut self, el: &SvgElement) {
         if let Some(id) = el.get_attr("id") {
             let id = eval_attr(&id, self).unwrap_or(id);
